@@ -1,4 +1,9 @@
 """C12 check configuration (see lib/runner.py for the meaning of the keys)."""
+import os
+
+# which repairs the tree under test is expected to contain: "<fixes/C12-F1.diff> <fixes/C12-F4.diff>" (Coq booleans).
+# Default = /repo as it is; VERIF_C12_FX="true true" runs the check against a tree with both diffs applied.
+_FX = os.environ.get("VERIF_C12_FX", "false false")
 
 P = {
     "id": "C12",
@@ -18,7 +23,7 @@ P = {
             "internal/handler/proxy/zz_verif_export.go": "export/proxy_export.go",
             "internal/handler/envoyextauth/grpcv3/zz_verif_export.go": "export/grpcv3_export.go",
         },
-        "eval_module": "Run.Eval_C12", "check_term": "check (mkfx false false)",   # mkfx <fixes/C12-F1.diff applied> <fixes/C12-F4.diff applied>
+        "eval_module": "Run.Eval_C12", "check_term": "check (mkfx %s)" % _FX,
         "n_quick": 1500, "n_thorough": 40000, "findings": {1: "C12-F1", 2: "C12-F2", 4: "C12-F4"}, "shard": 200,
     }],
     "rule": "respond configuration (verbose, six override codes incl. 0, 1xx/2xx, negative and >999) x Accept header (absent, "
